@@ -45,9 +45,18 @@ def part_rule(ctx):
         if need not in regs:
             raise AnalysisIncomplete("CouplingTransform does not register buffer %s" % need)
     parts = {}
+    truthy = {}  # buffer name -> polarity, when the selecting predicate is the truth value of the mask
     for name, (node, v) in regs.items():
         if name not in ("identity_features", "transform_features"):
             continue
+        if isinstance(v, ast.Name):
+            # `a, b = helper(mask)`: read the element of the helper's returned tuple
+            hv = _helper_element(p, base, ctor_nodes, v.id)
+            if hv is not None:
+                src_text, pol = hv
+                parts[name] = (node, src_text, None)
+                truthy[name] = pol
+                continue
         if not (isinstance(v, ast.Call) and isinstance(v.func, ast.Attribute) and v.func.attr in ("masked_select",) and len(v.args) == 1):
             if isinstance(v, ast.Subscript):
                 parts[name] = (node, norm_text(v.value), v.slice)
@@ -64,6 +73,8 @@ def part_rule(ctx):
         # the index vector must be arange(features)
         locals_ = {n.targets[0].id: n.value for n in ctor_nodes if isinstance(n, ast.Assign) and isinstance(n.targets[0], ast.Name)}
         srcv = locals_.get(src1)
+        if srcv is None and truthy and src1.startswith("torch.arange("):
+            srcv = ast.parse(src1, mode="eval").body
         if isinstance(srcv, ast.Call):
             # the index vector behind a factory / memo helper: what the helper returns for these arguments
             from ..helperval import value_of_call
@@ -75,8 +86,15 @@ def part_rule(ctx):
             res.ok("index vector is arange(features)")
         else:
             res.fail(Finding("CPL-PART", base.module, init.qualname, n1, "index vector `%s` is not arange(features)" % (norm_text(srcv) if srcv is not None else src1)))
-        a1, a2 = _pred_atom(pred1), _pred_atom(pred2)
-        if a1 is None or a2 is None:
+        a1, a2 = (_pred_atom(pred1), _pred_atom(pred2)) if not truthy else (None, None)
+        if len(truthy) == 2:
+            if truthy["transform_features"] and not truthy["identity_features"]:
+                res.fail(Finding("CPL-PART", base.module, init.qualname, n2, "the index buffers are selected by the truth value of the mask (`mask.bool()` / its complement): transformed features must be those with mask > 0 (documented contract); found `mask != 0`, so a negative entry is transformed instead of being passed through"))
+            else:
+                res.fail(Finding("CPL-PART", base.module, init.qualname, n2, "the index buffers are selected by the truth value of the mask with polarities %s / %s: transformed features must be those with mask > 0 and identity features the rest" % (truthy["identity_features"], truthy["transform_features"])))
+        elif truthy:
+            res.undecide("CouplingTransform index predicates", "one buffer selected by a comparison, the other by the truth value of the mask")
+        elif a1 is None or a2 is None:
             res.undecide("CouplingTransform index predicates", "not comparisons of the mask")
         elif negate_atom(a1) == a2:
             if a2 in ("mask > 0", "0 < mask"):
@@ -86,6 +104,58 @@ def part_rule(ctx):
         else:
             res.fail(Finding("CPL-PART", base.module, init.qualname, n2, "predicates `%s` and `%s` are not complementary: some feature is in both or in neither part" % (a1, a2)))
     return res
+
+
+def _helper_element(p, base, ctor_nodes, name):
+    """For `.., name, .. = f(mask)` in the constructor with f a straight-line function of the repository
+    returning a tuple whose element is `<arange vector>[<m>]` or `<arange vector>[~<m>]` with
+    `<m> = <..mask..>.bool()`: (text of the index vector, polarity of the truth-value selection)"""
+    for st in ctor_nodes:
+        if not (isinstance(st, ast.Assign) and len(st.targets) == 1 and isinstance(st.targets[0], ast.Tuple) and isinstance(st.value, ast.Call)):
+            continue
+        names = [t.id if isinstance(t, ast.Name) else None for t in st.targets[0].elts]
+        if name not in names:
+            continue
+        k = names.index(name)
+        try:
+            fi = p.resolve_expr(p.modules[base.module] if isinstance(base.module, str) else base.module, st.value.func)
+        except Exception:
+            fi = None
+        fnode = getattr(fi, "node", None)
+        if not isinstance(fnode, ast.FunctionDef) or len(fnode.args.args) != 1 or len(st.value.args) != 1:
+            return None
+        param = fnode.args.args[0].arg
+        env = {}
+        ret = None
+        for b in fnode.body:
+            if isinstance(b, ast.Expr) and isinstance(b.value, ast.Constant):
+                continue
+            if isinstance(b, ast.Assign) and len(b.targets) == 1 and isinstance(b.targets[0], ast.Name):
+                env[b.targets[0].id] = b.value
+            elif isinstance(b, ast.Return) and ret is None:
+                ret = b.value
+            else:
+                return None
+        if not (isinstance(ret, ast.Tuple) and len(ret.elts) == len(names)):
+            return None
+        e = ret.elts[k]
+        if not (isinstance(e, ast.Subscript) and isinstance(e.value, ast.Name)):
+            return None
+        vec = env.get(e.value.id)
+        sel, pol = e.slice, True
+        while isinstance(sel, ast.UnaryOp) and isinstance(sel.op, (ast.Invert, ast.Not)):
+            pol = not pol
+            sel = sel.operand
+        if not isinstance(sel, ast.Name):
+            return None
+        m = env.get(sel.id)
+        if not (isinstance(m, ast.Call) and isinstance(m.func, ast.Attribute) and m.func.attr == "bool" and param in {n.id for n in ast.walk(m) if isinstance(n, ast.Name)}):
+            return None
+        if vec is None:
+            return None
+        vtext = norm_text(vec).replace(param, norm_text(st.value.args[0]))
+        return vtext, pol
+    return None
 
 
 def _pred_atom(e):
